@@ -196,6 +196,62 @@ def buffer_text(f, ref):
     return best
 
 
+def _dirty_since_clear(f, site, d, sev):
+    """-> (node, description) of something that can write descriptor d between the dominating ClearErrorMsg() and `site`, else None.
+    Not counted: a call inside the setter's own argument (`D.severity( x->STEPread( .., &D, .. ) )`: what that call returns is what is
+    stored; R8 keeps its result from being milder than `clean`), and a writer after which every path to the site passes an early-exit
+    guard `if( D.severity() <= K ) return ..;`."""
+    cfg = f.cfg
+    spos = cfg.locate(site)
+    own_arg = {y["i"] for a in call_args(site) for y in walk(a)}
+    guards = []
+    for x in f.walk():
+        if x["k"] != "If":
+            continue
+        c0 = strip(x["ch"][0])
+        if c0 is None or c0["k"] != "Binary" or c0.get("op") not in ("<=", "<"):
+            continue
+        l, r = strip(c0["ch"][0]), strip(c0["ch"][1])
+        if l is not None and l["k"] == "Call" and is_ed_call(l, {"severity"}) and len(call_args(l)) == 0 and desc_of(l) == d and \
+                isinstance((r or {}).get("val"), int) and r["val"] + (0 if c0["op"] == "<=" else -1) >= sev["SEVERITY_INCOMPLETE"]:
+            body = x["ch"][1]
+            last = body["ch"][-1] if body is not None and body["k"] == "Compound" and body.get("ch") else body
+            if last is not None and last["k"] == "Return":
+                guards.append(c0)
+    clears = [c for c in f.calls() if is_ed_call(c, {"ClearErrorMsg"}) and desc_of(c) == d and cfg.dominates(cfg.locate(c), spos)]
+    if not clears:
+        return (site, "no ClearErrorMsg() dominates the site")
+    start = cfg.locate(clears[-1])
+    leaf = d.split(".")[-1].split(":")[-1]
+    for c in f.calls():
+        if c is site or c in clears:
+            continue
+        what = None
+        if is_ed_call(c, {"GreaterSeverity", "AppendToDetailMsg", "AppendToUserMsg", "PrependToDetailMsg", "PrependToUserMsg", "AppendFromErrorArg", "severity"}) \
+                and desc_of(c) == d and call_args(c):
+            if (c.get("fn") or "").endswith("severity"):
+                continue                      # other setters are sites of their own
+            what = "%s()" % c["fn"].split("::")[-1]
+        else:
+            for a in call_args(c):
+                a0 = strip(a)
+                if a0 is not None and a0["k"] == "Unary" and a0.get("op") == "&":
+                    a0 = strip(a0["ch"][0])
+                if a0 is not None and a0["k"] in ("Member", "Ref") and (a0.get("n") == leaf) and ("ErrorDescriptor" in f.ty(a0)):
+                    what = "%s( .. &%s .. )" % (c.get("fn"), leaf)
+        if what is None:
+            continue
+        cpos = cfg.locate(c)
+        if cpos is None or c["i"] in own_arg:
+            continue
+
+        def is_guard(e):
+            return any(g is e or any(y is g for y in walk(e)) for g in guards)
+        if cfg.reaches(start, cpos) and cfg.reaches(cpos, spos, is_guard):
+            return (c, what)
+    return None
+
+
 def r2_relaxation(prog, res, sev):
     tblp = os.path.join(T, "c03_relaxation.json")
     allowed = json.load(open(tblp))["sites"] if os.path.exists(tblp) else {}
@@ -245,6 +301,17 @@ def r2_relaxation(prog, res, sev):
                 continue
             found.append(key)
             ok = key in allowed
+            # a reviewed reason that claims freshness is re-checked on the code: since the ClearErrorMsg() that dominates the site nothing
+            # may have written the descriptor or received it by address / reference on any path to the site
+            keeps_unclean = kind.startswith("severity(SEVERITY_") and sev.get(kind[len("severity("):-1], 99) <= sev["SEVERITY_INCOMPLETE"]
+            if ok and "first write after the ClearErrorMsg()" in allowed[key] and kind != "ClearErrorMsg()" and not keeps_unclean:
+                dirty = _dirty_since_clear(f, c, d, sev)
+                if dirty is not None:
+                    res.add("R2.relaxation_sites", key, f.where(c), False,
+                            "`%s.%s` is listed as the first write after ClearErrorMsg(), but %s (line %s) can run in between and record an error in "
+                            "the same descriptor: the setter then wipes it (e.g. garbage after `$` for an OPTIONAL attribute is accepted silently)"
+                            % (d.split(":")[-1], kind, dirty[1], dirty[0]["l"]))
+                    continue
             res.add("R2.relaxation_sites", key, f.where(c), ok,
                     "reviewed: " + allowed[key] if ok else
                     "`%s.%s` can lower a severity that was already raised and is not one of the reviewed relaxation sites"
